@@ -218,6 +218,30 @@ func (e *Engine) interop(fr *frame, st *State, c *ast.CallExpr, fn *types.Func, 
 		withArgs(func(st *State, vs []Val) { k(st, []Val{e.convert(vs[0], spec.Type{K: spec.KNB})}) })
 	case has(full, "interop/convert.ToInteger"):
 		withArgs(func(st *State, vs []Val) { k(st, []Val{e.convert(vs[0], spec.Type{K: spec.KInt})}) })
+	case has(full, "native/std.Atoi10"), has(full, "native/std.Atoi"):
+		// std.atoi of the native StdLib (neo-go core/native/std.go): faults unless the text is a number of the base
+		// (base 10: optional sign and decimal digits; base 16: hex digits, two's complement reading), at most 1024 bytes.
+		// Validity and value are the uninterpreted std_atoiNN_ok / std_atoiNN with the Prelude axioms below.
+		base := 10
+		if has(full, "native/std.Atoi") && !has(full, "native/std.Atoi10") {
+			base = 0
+			if tv := info.Types[c.Args[1]]; tv.Value != nil {
+				if b, ok := constant.Int64Val(tv.Value); ok && (b == 10 || b == 16) {
+					base = int(b)
+				}
+			}
+			if base == 0 {
+				pure()
+				return true
+			}
+		}
+		withArgs(func(st *State, vs []Val) {
+			spec.DeclareAtoi(base)
+			okT := sx.App(fmt.Sprintf("std_atoi%d_ok", base), vs[0].bytes())
+			e.guard(fr, st, okT, "std.atoi: invalid format", func(st *State) {
+				k(st, []Val{mk(sx.App(fmt.Sprintf("std_atoi%d", base), vs[0].bytes()), spec.KInt)})
+			})
+		})
 	case strings.Contains(full, "native/crypto."), strings.Contains(full, "native/std."), strings.Contains(full, "lib/address."),
 		has(full, "interop/contract.CreateMultisigAccount"), has(full, "interop/contract.CreateStandardAccount"),
 		strings.Contains(full, "native/roles.GetDesignatedByRole"), strings.Contains(full, "native/management.Get"),
